@@ -40,7 +40,13 @@ func runC19(t *rapid.T) {
 	if core.Thorough() {
 		b.MaxCols, b.MaxRows = 6, 48
 	}
-	fs := gen.DrawFrame(t, b)
+	var fs *gen.FrameSpec
+	if gen.Rare(t, "big", 1500) {
+		fs = gen.DrawBigFrame(t, 300, 1500) // many statements in one transaction
+		core.Probe("big-frame")
+	} else {
+		fs = gen.DrawFrame(t, b)
+	}
 	suffix := make([]int, len(fs.Cols))
 	for i := range fs.Cols {
 		suffix[i] = rapid.IntRange(0, len(sqlNameSuffix)-1).Draw(t, "suffix")
